@@ -87,7 +87,7 @@ fn fl(v: &[Family]) -> String {
 fn op_name(o: &Op) -> String {
     match o {
         Op::Est(c) => format!("establish(gr={{{}}}{},llgr={{{}}})", fl(&c.gr), if c.nbit { ",N" } else { "" }, fl(&c.llgr)),
-        Op::Announce(f, k, nl, pid) => format!("announce({},n{}{}{})", fname(f), k, if *nl { ",NO_LLGR" } else { "" }, if *pid != 0 { format!(",path-id {pid}") } else { String::new() }),
+        Op::Announce(f, k, nl, pid) => format!("announce({},n{}{}{})", fname(f), k, if *nl { ",NO_LLGR" } else if *k == 2 { ",LLGR_STALE community" } else { "" }, if *pid != 0 { format!(",path-id {pid}") } else { String::new() }),
         Op::Eor(f) => format!("eor({})", fname(f)),
         Op::Drop(r) => format!("drop({:?})", r),
         Op::ReconnectFail(s) => format!("reconnect_fail({:?})", s),
@@ -303,6 +303,9 @@ impl Model for LiveModel {
                 ];
                 if *no_llgr {
                     attrs.push(packet::Attribute::new_with_bin(packet::Attribute::COMMUNITY, NO_LLGR.to_be_bytes().to_vec()).unwrap());
+                } else if *k == 2 {
+                    // a route the neighbour itself holds as an LLGR helper: it arrives tagged LLGR_STALE
+                    attrs.push(packet::Attribute::new_with_bin(packet::Attribute::COMMUNITY, 0xffff_0006u32.to_be_bytes().to_vec()).unwrap());
                 }
                 let nexthop = match *f {
                     Family::IPV6 => bgp::Nexthop::V6("2001:db8::1".parse().unwrap()),
@@ -672,6 +675,9 @@ fn live_models(thorough: bool) -> Vec<LiveModel> {
             }
             if !local_llgr.is_empty() {
                 ops.push(Op::Announce(*f, 1, true, if addpath && *f == Family::IPV4 { 1 } else { 0 }));
+                if *f == Family::IPV4 {
+                    ops.push(Op::Announce(*f, 2, false, if addpath { 1 } else { 0 }));
+                }
             }
             ops.push(Op::Eor(*f));
         }
